@@ -41,7 +41,7 @@ Off(sd, t, j) == LET k == Pick(sd, t, j, 10) IN
 GenAddr(ed, sd, t, j) ==
     LET n == NLines(ed)
         k == Pick(sd, t, j, 20)
-        base == IF k < 8 THEN [b |-> "num", n |-> Pick(sd, t, j + 1, n + 3), m |-> 0, re |-> <<>>]
+        base == IF k < 8 THEN [b |-> "num", n |-> Pick(sd, t, j + 1, n + 3), m |-> 0, re |-> <<>>, lz |-> Pick(sd, t, j + 9, 5) = 0]
                 ELSE IF k < 11 THEN [b |-> "dot", n |-> 0, m |-> 0, re |-> <<>>]
                 ELSE IF k < 14 THEN [b |-> "last", n |-> 0, m |-> 0, re |-> <<>>]
                 ELSE IF k < 16 THEN LET m == Elem(sd, t, j + 1, MarkPool) IN
